@@ -197,11 +197,15 @@ class Ctx:
         lines are independent of each other and not timed)."""
         if workers > 1 and len(lines) >= 4 * workers:
             from concurrent.futures import ThreadPoolExecutor
-            n = (len(lines) + workers - 1) // workers
-            chunks = [lines[i:i + n] for i in range(0, len(lines), n)]
+            # round-robin, not contiguous: neighbouring lines are usually variations of one (possibly slow) base case
+            chunks = [lines[i::workers] for i in range(workers)]
             with ThreadPoolExecutor(max_workers=workers) as ex:
                 parts = list(ex.map(lambda c: self.run_lines_robust(exe, args, c, timeout=timeout, env=env), chunks))
-            return [x for part in parts for x in part]
+            out = [None] * len(lines)
+            for i, part in enumerate(parts):
+                part = part + ["err abort"] * (len(chunks[i]) - len(part))
+                out[i::workers] = part[:len(chunks[i])]
+            return out
         res = []
         i = 0
         while i < len(lines):
@@ -254,18 +258,37 @@ class Ctx:
                 dis += 1
                 self.model_disagreements.append({"stream": name, "input": case, "impl": a, "model": b})
         cov = {"stream": name, "what": what, "cases": len(lines), "distinct_nontrivial": nontriv,
-               "distribution": dict(sorted(dist.items())), "model_disagreements": dis,
+               "distribution": self._compact(dict(sorted(dist.items()))), "model_disagreements": dis,
                "spec_failures": specf, "wall_s": round(time.time() - t, 2)}
         self.streams.append(cov)
         for s in lines[:: max(1, len(lines) // 3)][:3]:
-            self.samples.append({"stream": name, "case": s})
+            self.samples.append({"stream": name, "case": s if len(s) <= 2000 else s[:2000] + "..."})
         return cov
+
+    @staticmethod
+    def _compact(d, keep=120):
+        """evidence files must stay small: a distribution with thousands of keys (one per code point, per unit name, ...) keeps its
+        `keep` most frequent keys and sums the rest"""
+        if isinstance(d, dict):
+            d = {k: Ctx._compact(v, keep) for k, v in d.items()}
+            if len(d) > keep:
+                num = lambda v: v if isinstance(v, (int, float)) and not isinstance(v, bool) else 0
+                items = sorted(d.items(), key=lambda kv: -num(kv[1]))
+                rest = items[keep:]
+                d = dict(items[:keep])
+                d["(other keys)"] = {"keys": len(rest), "total": sum(num(v) for _, v in rest)}
+            return d
+        if isinstance(d, list) and len(d) > keep:
+            return d[:keep] + [f"... {len(d) - keep} more"]
+        if isinstance(d, str) and len(d) > 2000:
+            return d[:2000] + "..."
+        return d
 
     def record_stream(self, name, what, cases, nontriv, dist, samples, wall):
         self.streams.append({"stream": name, "what": what, "cases": cases, "distinct_nontrivial": nontriv,
-                             "distribution": dist, "wall_s": round(wall, 2)})
+                             "distribution": self._compact(dist), "wall_s": round(wall, 2)})
         for s in samples[:3]:
-            self.samples.append({"stream": name, "case": s})
+            self.samples.append({"stream": name, "case": s if not isinstance(s, str) or len(s) <= 2000 else s[:2000] + "..."})
 
     # ------------------------------------------------------------ conclusion
     def _known(self, f):
